@@ -61,6 +61,15 @@ long ext2fs_get_mem(unsigned long size, void *ptr);
 long ext2fs_get_memzero(unsigned long size, void *ptr);
 long ext2fs_free_mem(void *ptr);
 long ext2fs_resize_mem(unsigned long old_size, unsigned long size, void *ptr);
+/*
+ * memmove / realloc of the list: libc's byte-array models are unusable on a list of symbolic length, so the two calls
+ * get GHOST-INDEX specifications (C standard: memmove copies n bytes as if through a temporary, realloc keeps the
+ * contents up to the smaller size; everything else of the destination object is unchanged resp. indeterminate):
+ * the whole object is havocked and the entries at the ghost indices ea_gI, EA_BPK, EA_BPK + 1 (the only ones a
+ * postcondition looks at besides the freshly written one) are given the values the standard prescribes.
+ */
+void *ea_memmove(void *dst, const void *src, size_t n);
+#define memmove ea_memmove
 
 /* ghost state (see above) */
 unsigned long long ea_gA, ea_gPA, ea_gK, ea_gPK, ea_gI, ea_gV;
@@ -75,18 +84,39 @@ int ea_collapsed;
 /* the macros below are defined after the real file (they need its struct definitions) */
 
 /* instance of the precondition "strictly ascending" at the index probed by the binary search (list not yet written) */
-#ifndef VERIF_GHOST_GET_REFCOUNT_EL_PROBE
 /*
- * (1) the search-window invariant as a checked lemma per probe (assert, then assume): the lower bound of the key lies in
- *     [low, high+1], and in [low, high] if the key is present;  (2) the instance of "strictly ascending" at mid.
+ * The binary search of get_refcount_el.  DFCC cannot attach a loop contract to it (the loop is nested in the
+ * "goto retry" loop, which has no syntactic place for a contract), and plain unwinding of a binary search is exponential
+ * for the SAT back ends (11 probes: > 250 s).  The loop is therefore closed by its INVARIANT, applied by hand exactly as
+ * --apply-loop-contracts would, in the ghost statement at the top of the body:
+ *   first arrival of a search (window = whole list): assert the invariant (base case), replace low/high by ARBITRARY
+ *        values satisfying invariant and loop condition, record the variant;
+ *   next arrival (one iteration later): assert the invariant (step case) and that the window shrank (termination), stop.
+ * The code behind the loop is reached with the exit states of that one arbitrary iteration.  Invariant: the lower bound
+ * of the key lies in [low, high+1], and in [low, high] if the key is present.
+ * At the probe: the instance of the precondition "strictly ascending" at mid (the list has not been written since the
+ * state the precondition speaks about: the pre-state, or the state refcount_collapse left behind).
  */
+int ea_dec;
 #define EA_SEARCH_INV \
-	(0 <= low && low <= high && (unsigned long long) high < refcount->count && \
-	 (unsigned long long) low <= EA_BPA && EA_BPA <= (unsigned long long) high + 1 && \
-	 (!(EA_BPA < refcount->count && refcount->list[EA_BPA].ea_key == ea_key) || EA_BPA <= (unsigned long long) high))
+	(0 <= low && high >= -1 && (high < 0 || (unsigned long long) high < refcount->count) && low <= high + 1 && \
+	 (unsigned long long) low <= EA_BPA && EA_BPA <= (unsigned long long) (high + 1) && \
+	 (!(EA_BPA < refcount->count && refcount->list[EA_BPA].ea_key == ea_key) || (high >= 0 && EA_BPA <= (unsigned long long) high)))
+#ifndef VERIF_GHOST_GET_REFCOUNT_EL_LOOP
+#define VERIF_GHOST_GET_REFCOUNT_EL_LOOP \
+	if (low == 0 && high == (int) refcount->count - 1) { \
+		__CPROVER_assert(EA_SEARCH_INV, "binary search: invariant holds on entry"); \
+		{ int nd_low, nd_high; low = nd_low; high = nd_high; } \
+		__CPROVER_assume(EA_SEARCH_INV && low <= high); \
+		ea_dec = high - low; \
+	} else { \
+		__CPROVER_assert(EA_SEARCH_INV, "binary search: invariant is preserved"); \
+		__CPROVER_assert(high - low < ea_dec, "binary search: window shrinks (termination)"); \
+		__CPROVER_assume(0); \
+	}
+#endif
+#ifndef VERIF_GHOST_GET_REFCOUNT_EL_PROBE
 #define VERIF_GHOST_GET_REFCOUNT_EL_PROBE \
-	__CPROVER_assert(EA_SEARCH_INV, "search window contains the lower bound of the key"); \
-	__CPROVER_assume(EA_SEARCH_INV); \
 	__CPROVER_assume(FSCKDS_PART(refcount->list[mid].ea_key, (unsigned long long) mid, refcount->count, ea_key, EA_BPA));
 #endif
 
@@ -115,15 +145,60 @@ long ext2fs_free_mem(void *ptr)
 	*pp = 0;
 	return 0;
 }
+static struct ea_refcount RC;	/* the container of the harness (its list is the object the stubs below speak about) */
+#define EA_NGHOST 3
+#define EA_GHOST_IDX(n) ((n) == 0 ? ea_gI : (n) == 1 ? EA_BPK : EA_BPK + 1)
 long ext2fs_resize_mem(unsigned long old_size, unsigned long size, void *ptr)
 {
-	void **pp = (void **) ptr;
-	void *p = realloc(*pp, size);
-	(void) old_size;
-	if (!p)
+	struct ea_refcount_el **pp = (struct ea_refcount_el **) ptr, *old = *pp, *new;
+	struct ea_refcount_el keep[EA_NGHOST];
+	unsigned long long g[EA_NGHOST], nold = old_size / sizeof(*old), nnew = size / sizeof(*old);
+	int n;
+
+#ifdef EA_SCEN_ROOM
+	__CPROVER_assert(0, "scenario 'room': the list is never resized");
+	__CPROVER_assume(0);
+#endif
+	__CPROVER_assert(__CPROVER_r_ok(old, old_size), "realloc: old_size bytes of the old list are allocated");
+	for (n = 0; n < EA_NGHOST; n++) {
+		g[n] = EA_GHOST_IDX(n);
+		if (g[n] < nold)
+			keep[n] = old[g[n]];
+	}
+	__CPROVER_assert(size % sizeof(*old) == 0, "realloc: whole entries");
+	new = malloc(nnew * sizeof(struct ea_refcount_el));	/* typed allocation of the same number of bytes */
+	if (!new)
 		return EXT2_ET_NO_MEMORY;
-	*pp = p;
+	for (n = 0; n < EA_NGHOST; n++)
+		if (g[n] < nold && g[n] < nnew)
+			new[g[n]] = keep[n];
+	free(old);
+	*pp = new;
 	return 0;
+}
+void *ea_memmove(void *dst, const void *src, size_t n)
+{
+	struct ea_refcount_el *base = RC.list;
+	struct ea_refcount_el keep[EA_NGHOST];
+	unsigned long long g[EA_NGHOST], d0, s0, cnt = n / sizeof(*base), total = __CPROVER_OBJECT_SIZE(dst) / sizeof(*base);
+	int i;
+
+	__CPROVER_assert(__CPROVER_r_ok(src, n) && __CPROVER_w_ok(dst, n), "memmove: source readable, destination writable for n bytes");
+	__CPROVER_assert(__CPROVER_same_object(dst, base) && __CPROVER_same_object(dst, src) && n % sizeof(*base) == 0 &&
+			 __CPROVER_POINTER_OFFSET(dst) % sizeof(*base) == 0 && __CPROVER_POINTER_OFFSET(src) % sizeof(*base) == 0,
+			 "memmove: moves whole entries inside the list");
+	d0 = __CPROVER_POINTER_OFFSET(dst) / sizeof(*base);
+	s0 = __CPROVER_POINTER_OFFSET(src) / sizeof(*base);
+	for (i = 0; i < EA_NGHOST; i++) {
+		g[i] = EA_GHOST_IDX(i);
+		if (g[i] < total)
+			keep[i] = (g[i] >= d0 && g[i] < d0 + cnt) ? base[g[i] - d0 + s0] : base[g[i]];
+	}
+	__CPROVER_havoc_object(base);
+	for (i = 0; i < EA_NGHOST; i++)
+		if (g[i] < total)
+			base[g[i]] = keep[i];
+	return dst;
 }
 
 /* ------------------------------------------------------------------ spec functions and contracts (struct ea_refcount is now known) */
@@ -183,7 +258,7 @@ static int EA_WF_BUNDLE(const struct ea_refcount *rc, unsigned long long PA_, un
 	(EA_BASIC(rc) && EA_QK(rc) <= (rc)->count && ((rc)->count == EA_BCOUNT(rc) || EA_ADDED(rc)) && \
 	 EA_PART(rc, ea_gI, ea_gK, EA_QK(rc)))
 #define EA_MUTABLE(rc) (rc)->cursor, (rc)->count, (rc)->size, (rc)->list, __CPROVER_object_whole((rc)->list), \
-	ea_collapsed, ea_gPA2, ea_gPK2, ea_gCount2
+	ea_collapsed, ea_gPA2, ea_gPK2, ea_gCount2, ea_dec
 
 /*
  * refcount_collapse: drops the zero-valued entries.  Abstractly: the result is again well-formed, not longer, has the
@@ -193,6 +268,11 @@ static int EA_WF_BUNDLE(const struct ea_refcount *rc, unsigned long long PA_, un
  * obligation at every call site).
  */
 static void refcount_collapse(ext2_refcount_t refcount)
+#ifdef EA_SCEN_ROOM
+	/* scenario 'room' (count < size): never called — an obligation at every call site, nothing is assumed */
+	REQUIRES(0) ASSIGNS();
+static void ea_unused_collapse_contract(ext2_refcount_t refcount)
+#endif
 	REQUIRES(EA_BASIC(refcount) && ea_collapsed == 0)
 	REQUIRES(EA_WF_BUNDLE(refcount, ea_gPA, ea_gPK) && ea_gV == EA_VIEW(refcount, ea_gK, ea_gPK))
 	ASSIGNS(refcount->count, __CPROVER_object_whole(refcount->list), ea_collapsed, ea_gPA2, ea_gPK2, ea_gCount2)
